@@ -175,3 +175,41 @@ fn validate_node(n: &Node, t: ElementType, v: AutosarVersion, path: &str, is_roo
         }
     }
 }
+
+/// what a copy of `n` (an element of type `t`) into a file of version `v` must contain, by the harness's reading:
+/// an element is kept iff its name is a sub-element of its parent's type in `v`; an attribute iff its version mask and,
+/// for enumeration values, the value's mask contain `v`; an element whose required attribute cannot be kept is omitted
+/// as a whole (None). Character data is kept as it is.
+pub fn spec_filter(n: &Node, t: ElementType, v: AutosarVersion) -> Option<Node> {
+    let mut out = Node::new(&n.name);
+    out.comment = n.comment.clone();
+    for (an, val) in &n.attrs {
+        let Ok(name) = AttributeName::from_str(an) else { continue };
+        let Some(spec) = t.find_attribute_spec(name) else { return None };
+        let mut keep = v.compatible(spec.version);
+        if keep {
+            if let (CharacterDataSpec::Enum { items }, Val::Enum(item)) = (spec.spec, val) {
+                keep = items.iter().any(|(i, m)| i.to_str() == item && v.compatible(*m));
+            }
+        }
+        if keep {
+            out.attrs.push((an.clone(), val.clone()));
+        } else if spec.required {
+            return None;
+        }
+    }
+    for it in &n.items {
+        match it {
+            Item::Text(val) => out.items.push(Item::Text(val.clone())),
+            Item::Node(c) => {
+                let Ok(name) = ElementName::from_str(&c.name) else { continue };
+                if let Some((ct, _)) = t.find_sub_element(name, v as u32) {
+                    if let Some(fc) = spec_filter(c, ct, v) {
+                        out.items.push(Item::Node(fc));
+                    }
+                }
+            }
+        }
+    }
+    Some(out)
+}
